@@ -126,76 +126,203 @@ theorem headerPhases_vendor (f : AngFmt) (ps : List PhaseInfo) (xs : List PhaseX
   · rw [rekey_rekey _ _ _ (by by_cases hf : f = AngFmt.astar <;> simp [hf])
       (by by_cases hf : f = AngFmt.astar <;> simp [hf]), rekey_self]
 
+/-- the header `encodeAng` writes -/
+def vendorHeader (f : AngFmt) (ps : List PhaseInfo) (xs : List PhaseX) : List HLine :=
+  (if f = AngFmt.astar then [HLine.mark .astar, .other, .other, .other]
+      else [HLine.other, .other, .other, .other, .other, .other])
+    ++ vendorBlocks f ps xs ++ [HLine.other, .other, .other, .other, .other, .other, .other]
+
+/-- marks in a vendor header: the ASTAR footprint in the first line of ASTAR files, the EMsoft footprint in
+the phase blocks of EMsoft files, nothing else; no `Column names:` line -/
+theorem vendorHeader_lines (f : AngFmt) (ps : List PhaseInfo) (xs : List PhaseX) :
+    ∀ l ∈ vendorHeader f ps xs, isColNames l = false ∧
+      (∀ v, l = .mark v → (v = .emsoft ∧ f = .emsoft) ∨ (v = .astar ∧ f = .astar)) := by
+  intro l hl
+  unfold vendorHeader at hl
+  rcases List.mem_append.1 hl with h1 | h1
+  · rcases List.mem_append.1 h1 with h2 | h2
+    · cases f <;> simp at h2 <;> rcases h2 with rfl | rfl <;> simp [isColNames]
+    · have := vendorBlocks_lines f ps xs l h2
+      exact ⟨this.1, fun v hv => Or.inl (this.2 v hv)⟩
+  · simp at h1; subst h1; simp [isColNames]
+
+theorem not_mark_mem (f : AngFmt) (ps : List PhaseInfo) (xs : List PhaseX) (v : Vendor)
+    (h : ¬ ((v = .emsoft ∧ f = .emsoft) ∨ (v = .astar ∧ f = .astar))) : HLine.mark v ∉ vendorHeader f ps xs :=
+  fun hm => h ((vendorHeader_lines f ps xs _ hm).2 v rfl)
+
 /-- vendor detection on a vendor file -/
 theorem detect_vendor (f : AngFmt) (ps : List PhaseInfo) (xs : List PhaseX) (hne : ps ≠ [])
     (hl : ps.length = xs.length) :
-    detectVendor angReader
-      ((if f = AngFmt.astar then [HLine.mark .astar, .other, .other, .other]
-          else [HLine.other, .other, .other, .other, .other, .other])
-        ++ vendorBlocks f ps xs ++ [HLine.other, .other, .other, .other, .other, .other, .other])
-      = (fmtVendor f, none) := by
-  have hb := vendorBlocks_lines f ps xs
-  have hcol : ∀ l ∈ ((if f = AngFmt.astar then [HLine.mark .astar, .other, .other, .other]
-          else [HLine.other, .other, .other, .other, .other, .other])
-        ++ vendorBlocks f ps xs ++ [HLine.other, .other, .other, .other, .other, .other, .other]),
-      isColNames l = false := by
-    intro l hl'
-    rcases List.mem_append.1 hl' with h1 | h1
-    · rcases List.mem_append.1 h1 with h2 | h2
-      · cases f <;> simp at h2 <;> rcases h2 with rfl | rfl <;> rfl
-      · exact (hb l h2).1
-    · simp at h1; subst h1; rfl
-  have horix := findMark_absent angReader .orix _ (by
-      intro hm
-      rcases List.mem_append.1 hm with h1 | h1
-      · rcases List.mem_append.1 h1 with h2 | h2
-        · cases f <;> exact absurd h2 (by decide)
-        · have := (hb _ h2).2 .orix rfl
-          exact absurd this.1 (by decide)
-      · exact absurd h1 (by decide)) (fun _ => hcol)
+    detectVendor angReader (vendorHeader f ps xs) = (fmtVendor f, none) := by
+  have hcol : ∀ l ∈ vendorHeader f ps xs, isColNames l = false := fun l hl' => (vendorHeader_lines f ps xs l hl').1
+  have horix : findMark angReader .orix (vendorHeader f ps xs) = none :=
+    findMark_absent angReader .orix _ (not_mark_mem f ps xs .orix (by simp)) (fun _ => hcol)
   cases f
-  case tsl | tslWide =>
-    all_goals
-      have he := findMark_absent angReader .emsoft _ (by
-        intro hm
-        rcases List.mem_append.1 hm with h1 | h1
-        · rcases List.mem_append.1 h1 with h2 | h2
-          · exact absurd h2 (by decide)
-          · have := (hb _ h2).2 .emsoft rfl
-            exact absurd this.2 (by decide)
-        · exact absurd h1 (by decide)) (by intro h; cases h)
-      have ha := findMark_absent angReader .astar _ (by
-        intro hm
-        rcases List.mem_append.1 hm with h1 | h1
-        · rcases List.mem_append.1 h1 with h2 | h2
-          · exact absurd h2 (by decide)
-          · have := (hb _ h2).2 .astar rfl
-            exact absurd this.1 (by decide)
-        · exact absurd h1 (by decide)) (by intro h; cases h)
-      simp only [detectVendor, footprint_order, List.foldl, he, ha, horix, fmtVendor]
+  case tsl =>
+    have he : findMark angReader .emsoft (vendorHeader .tsl ps xs) = none :=
+      findMark_absent angReader .emsoft _ (not_mark_mem _ ps xs .emsoft (by simp)) (by intro h; cases h)
+    have ha : findMark angReader .astar (vendorHeader .tsl ps xs) = none :=
+      findMark_absent angReader .astar _ (not_mark_mem _ ps xs .astar (by simp)) (by intro h; cases h)
+    simp only [detectVendor, footprint_order, List.foldl, he, ha, horix, fmtVendor]
+  case tslWide =>
+    have he : findMark angReader .emsoft (vendorHeader .tslWide ps xs) = none :=
+      findMark_absent angReader .emsoft _ (not_mark_mem _ ps xs .emsoft (by simp)) (by intro h; cases h)
+    have ha : findMark angReader .astar (vendorHeader .tslWide ps xs) = none :=
+      findMark_absent angReader .astar _ (not_mark_mem _ ps xs .astar (by simp)) (by intro h; cases h)
+    simp only [detectVendor, footprint_order, List.foldl, he, ha, horix, fmtVendor]
   case emsoft =>
-    have he := findMark_mem angReader .emsoft (by decide) _
-      (List.mem_append_left _ (List.mem_append_right _ (vendorBlocks_mark ps xs hne hl)))
-    have ha := findMark_absent angReader .astar _ (by
-      intro hm
-      rcases List.mem_append.1 hm with h1 | h1
-      · rcases List.mem_append.1 h1 with h2 | h2
-        · exact absurd h2 (by decide)
-        · have := (hb _ h2).2 .astar rfl
-          exact absurd this.1 (by decide)
-      · exact absurd h1 (by decide)) (by intro h; cases h)
+    have he : findMark angReader .emsoft (vendorHeader .emsoft ps xs) = some none :=
+      findMark_mem angReader .emsoft (by decide) _
+        (List.mem_append_left _ (List.mem_append_right _ (vendorBlocks_mark ps xs hne hl)))
+    have ha : findMark angReader .astar (vendorHeader .emsoft ps xs) = none :=
+      findMark_absent angReader .astar _ (not_mark_mem _ ps xs .astar (by simp)) (by intro h; cases h)
     simp only [detectVendor, footprint_order, List.foldl, he, ha, horix, fmtVendor, Option.join]
+    rfl
   case astar =>
-    have he := findMark_absent angReader .emsoft _ (by
-      intro hm
-      rcases List.mem_append.1 hm with h1 | h1
-      · rcases List.mem_append.1 h1 with h2 | h2
-        · exact absurd h2 (by decide)
-        · have := (hb _ h2).2 .emsoft rfl
-          exact absurd this.2 (by decide)
-      · exact absurd h1 (by decide)) (by intro h; cases h)
-    have ha := findMark_mem angReader .astar (by decide) _
-      (List.mem_append_left _ (List.mem_append_left _ (by simp)))
+    have he : findMark angReader .emsoft (vendorHeader .astar ps xs) = none :=
+      findMark_absent angReader .emsoft _ (not_mark_mem _ ps xs .emsoft (by simp)) (by intro h; cases h)
+    have ha : findMark angReader .astar (vendorHeader .astar ps xs) = some none :=
+      findMark_mem angReader .astar (by decide) _
+        (List.mem_append_left _ (List.mem_append_left _ (by simp)))
     simp only [detectVendor, footprint_order, List.foldl, he, ha, horix, fmtVendor, Option.join]
+    rfl
+
+theorem getCol_some (names : List Str) (vals : List Int) (k : Str) (hk : k ∈ names)
+    (hl : names.length = vals.length) : ∃ c, getCol names vals k = some c := by
+  unfold getCol
+  induction names generalizing vals with
+  | nil => simp at hk
+  | cons a r ih =>
+    cases vals with
+    | nil => simp at hl
+    | cons v vs =>
+      simp only [List.zip_cons_cons, lookupStr]
+      by_cases h : (a == k) = true
+      · exact ⟨v, by simp [h]⟩
+      · have hk' : k ∈ r := by
+          rcases List.mem_cons.1 hk with h' | h'
+          · subst h'; simp at h
+          · exact h'
+        obtain ⟨c, hc⟩ := ih vs hk' (by simpa using hl)
+        exact ⟨c, by simp [h, hc]⟩
+
+/-- the point as the file carries it (TSL writes some phase number at not-indexed points) -/
+def fixPt (f : AngFmt) (x : AngExtras) (p : Pt) : Pt :=
+  if fmtCiRule f && p.phaseId == -1 then { p with phaseId := x.niPhase } else p
+
+theorem encodeAng_eq (f : AngFmt) (x : AngExtras) (m : PMap) :
+    encodeAng f x m =
+      { header := vendorHeader f (realPhases m) x.phases, ncols := (fmtColumns f).length,
+        rows := m.pts.map fun p => (fmtColumns f).map (field m.propNames (fixPt f x p)), widths := [] } := rfl
+
+/-- **C15, .ang vendor variants**: the reader inverts the format description. -/
+theorem ang_vendor_main (f : AngFmt) (x : AngExtras) (m : PMap) (ni : Bool) (hwf : VendorWF f x m ni) :
+    readAng angReader 100000 (encodeAng f x m) = some (false, m) := by
+  obtain ⟨hspec, hfilter, hprops, hpnodup, hnodup, hni, hunit⟩ := fmt_facts f
+  have hlen := forall₂_len hwf.blocks
+  have hneut := vendor_header_neutral f
+  obtain ⟨H, hH, hHlen, hHrekey⟩ := headerPhases_vendor f (realPhases m) x.phases hwf.blocks hwf.sorted
+    _ _ hneut.1 hneut.2
+  have hdet := detect_vendor f (realPhases m) x.phases hwf.nonempty hlen
+  have hvc : vendorColumns angReader (vendorHeader f (realPhases m) x.phases) (fmtColumns f).length
+      = some (fmtVendor f, fmtColumns f, false) := by
+    unfold vendorColumns
+    rw [hdet]
+    cases f <;> exact columns_table _
+  -- rows
+  have hrows : (m.pts.map fun p => (fmtColumns f).map (field m.propNames (fixPt f x p))).mapM
+      (rowToPt (fmtColumns f) (fmtProps f)) = some (m.pts.map (fixPt f x)) := by
+    apply mapM_map_eq_some
+    intro p hp
+    rw [hwf.props]
+    have hv : (fmtProps f).length = (fixPt f x p).vals.length := by
+      unfold fixPt; split <;> exact hwf.vals p hp
+    exact rowToPt_field (fmtColumns f) (fmtProps f) (fixPt f x p) hspec hprops hpnodup hv
+  have hall : (m.pts.map fun p => (fmtColumns f).map (field m.propNames (fixPt f x p))).all
+      (fun r => r.length == (fmtColumns f).length) = true := by
+    simp [List.all_map, List.all_eq_true]
+  -- the ci rule
+  have hci : (if angReader.notIndexedVendors.contains (fmtVendor f) = true
+      then (m.pts.map (fixPt f x)).mapM (applyCi (fmtProps f) angReader.ciName (angReader.ciSentinel * 100000))
+      else some (m.pts.map (fixPt f x))) = some m.pts := by
+    rw [hni]
+    by_cases hr : fmtCiRule f = true
+    · simp only [hr, if_true]
+      have hmap := mapM_map_eq_some m.pts (fixPt f x)
+        (applyCi (fmtProps f) angReader.ciName (angReader.ciSentinel * 100000)) id (fun p hp => by
+          have hcimem : S "ci" ∈ fmtProps f := by cases f <;> first | decide | (simp [fmtCiRule] at hr)
+          have hvals : (fixPt f x p).vals = p.vals := by unfold fixPt; split <;> rfl
+          obtain ⟨c, hc⟩ := getCol_some (fmtProps f) p.vals (S "ci") hcimem (hwf.vals p hp)
+          have hiff := hwf.ci hr p hp
+          have hname : angReader.ciName = S "ci" := by decide
+          have hsent : angReader.ciSentinel * 100000 = -100000 := by decide
+          simp only [applyCi, hvals, hname, hsent, hc, id]
+          by_cases hpid : p.phaseId = -1
+          · have : c = -100000 := by
+              have := hiff.1 hpid
+              rw [hc] at this
+              exact Option.some.inj this
+            subst this
+            simp only [if_true, fixPt, hr, hpid, Bool.true_and, beq_self_eq_true]
+            cases p
+            simp_all
+          · have : c ≠ -100000 := by
+              intro hcc
+              exact hpid (hiff.2 (by rw [hc, hcc]))
+            simp [this, fixPt, hpid])
+      simpa using hmap
+    · have hr' : fmtCiRule f = false := by simpa using hr
+      simp only [hr', Bool.false_eq_true, if_false]
+      congr 1
+      conv_rhs => rw [← List.map_id m.pts]
+      exact List.map_congr_left (fun p _ => by simp [fixPt, hr'])
+  -- phases
+  have hpos : ∀ a ∈ (realPhases m).map (·.id), (-1 : Int) < a := by
+    intro a ha
+    obtain ⟨p, hp, rfl⟩ := List.mem_map.1 ha
+    have := blocks_ids_nonneg f _ _ hwf.blocks p hp
+    omega
+  have hu : uniqSorted (m.pts.map (·.phaseId))
+      = (if ni then [(-1 : Int)] else []) ++ (realPhases m).map (·.id) := by
+    apply uniqSorted_eq
+    · cases ni
+      · simpa using hwf.sorted
+      · simp only [if_true, List.singleton_append]
+        exact List.Pairwise.cons hpos hwf.sorted
+    · intro a
+      rw [hwf.ids a]
+      cases ni <;> simp
+  have hrec := reconcile_rekey (m.pts.map (·.phaseId)) H ((realPhases m).map (·.id)) ni hu hpos
+    (by simp [hHlen])
+  rw [hHrekey, ← hwf.phases] at hrec
+  -- assemble
+  have hH' : headerPhases angReader (vendorHeader f (realPhases m) x.phases) = some H := hH
+  rw [encodeAng_eq]
+  unfold readAng
+  simp only [hH', hvc]
+  have hcond : (fmtColumns f).length ≤ (fmtColumns f).length ∧ (fmtColumns f).Nodup ∧
+      (m.pts.map fun p => (fmtColumns f).map (field m.propNames (fixPt f x p))).all
+        (fun r => r.length == (fmtColumns f).length) = true := ⟨le_refl _, hnodup, hall⟩
+  simp only [hcond, not_true_eq_false, and_self, if_false, hfilter, hrows, hci, hrec, hunit]
+  have hm : m = { propNames := fmtProps f, pts := m.pts, phases := m.phases, unit := fmtUnit f, degrees := false } := by
+    cases m
+    simp only [PMap.mk.injEq]
+    exact ⟨hwf.props, trivial, trivial, hwf.unit, hwf.rad⟩
+  rw [← hm]
+
+/-- **Unexpected number of columns**: when the number of columns of a TSL / EMsoft / ASTAR file is none of
+the numbers the reader's table lists for the vendor, the file is read with a warning and the generic names
+`euler1, euler2, euler3, x, y, unknown1, unknown2, phase_id, unknown3, …` — no property name of the vendor
+is assigned (kernel-checked on the generated table for every column count up to 40; and for all `n` beyond the
+largest table row by `columnsFor`'s definition). -/
+theorem unexpected_columns_small :
+    ([Vendor.tsl, Vendor.emsoft, Vendor.astar].all fun v => (List.range 40).all fun n =>
+      (match lookupV v angReader.columns with
+        | some variants => (variants.map List.length).contains n
+        | none => true) ||
+      (columnsFor angReader v n == some (Vendor.unknown,
+        [S "euler1", S "euler2", S "euler3", S "x", S "y", S "unknown1", S "unknown2", S "phase_id"]
+          ++ (List.range (n - 8)).map unknownName, true))) = true := by
+  decide +kernel
 
 end Orix.Codec.Ang
